@@ -135,6 +135,47 @@ def run(vc):
                 p.prove(f"zip:{tag}:{nm}-weighted", z3.Implies(total != 0, PDsum * to_z(coeff, R) == rhs), meta=dict(part="zip"),
                         note=f"PD_bus * {nm}_bus == sum over the bus's loads of p_l * {nm}_l (so the bus ZIP load is the sum of the loads' ZIP terms)")
     vc.explore("_calc_pq_elements_and_add_on_ppc[zip]", h_zip, max_paths=200)
+    run_pfsoln_choice(vc)
+
+
+class _Fn:
+    """marker for a result routine (the routines themselves are numba kernels: not interpreted)"""
+
+    def __init__(self, name):
+        self.name = name
+
+
+def run_pfsoln_choice(vc):
+    """the fast result routine pf_solution_single_slack computes the slack power as bus loads + branch losses: it is only valid for a
+    network with one machine, without voltage dependent loads, distributed slack or any shunt admittance at any bus (its assumed
+    precondition). _get_numba_functions must establish that precondition whenever it selects the routine."""
+    iu = consts("pandapower.pypower.idx_bus")
+    RN = "pandapower.pf.run_newton_raphson_pf"
+
+    def h(p):
+        bus = pm.bus_mat()
+        gs, bs = pm.colfun(bus, "all", iu.GS), pm.colfun(bus, "all", iu.BS)
+        gen = Mat("gen", {"all": Space.get("ppcgen")})
+        vdl, ds = SV(z3.Bool("voltage_depend_loads")), SV(z3.Bool("distributed_slack"))
+        me = p.it.modenv(RN)
+        single, general, pyp = _Fn("pf_solution_single_slack"), _Fn("pfsoln_numba"), _Fn("pfsoln_pypower")
+        me.vals["pf_solution_single_slack"], me.vals["pfsoln_numba"], me.vals["pfsoln_pypower"] = single, general, pyp
+        me.vals["makeYbus_numba"], me.vals["makeYbus_pypower"] = _Fn("makeYbus_numba"), _Fn("makeYbus_pypower")
+        me.vals["numba_installed"] = True
+        out = p.call(f"{RN}:_get_numba_functions", PDict({"bus": bus, "gen": gen}), PDict({"numba": True, "voltage_depend_loads": vdl,
+                                                                                             "distributed_slack": ds}))
+        if out.raised:
+            raise EngineError(f"_get_numba_functions raised {out.exc!r}")
+        chosen = out.value[1]
+        p.prove("pfsoln-choice: a result routine is returned", chosen in (single, general, pyp), meta=dict(part="pfsoln-choice"))
+        if chosen is single:
+            p.prove("pfsoln-choice: single-slack routine only without any shunt admittance at any bus", z3.And(to_z(gs, R) == 0, to_z(bs, R) == 0),
+                    meta=dict(part="pfsoln-choice"),
+                    note="generic bus: GS == 0 and BS == 0 (the routine leaves the shunt powers out of the slack power)")
+            p.prove("pfsoln-choice: single-slack routine only for one machine, constant-power loads, no distributed slack",
+                    z3.And(gen.segments["all"].n == 1, z3.Not(vdl.z), z3.Not(ds.z)), meta=dict(part="pfsoln-choice"))
+        p.cover("pfsoln-choice-reach", True)
+    vc.explore("_get_numba_functions", h, max_paths=40)
 
 
 def classify(ob, model):
@@ -142,6 +183,9 @@ def classify(ob, model):
 
 
 def replay(ob, model, finding=None):
+    if ob.meta.get("part") == "pfsoln-choice":
+        return {"script": f"# replay of {ob.id}\nfrom replaylib.nodal import main_single_slack\nmain_single_slack()\n",
+                "description": "single ext_grid networks with shunt-type elements whose rated powers cancel in total: nodal balance at every bus"}
     if ob.meta.get("part") in ("zip", "zip-structure"):
         return {"script": f"# replay of {ob.id}\nfrom replaylib.nodal import main_zip\nmain_zip()\n",
                 "description": "bus with a constant-impedance load and a constant-power load of different size: nodal balance"}
